@@ -18,6 +18,24 @@ CHECKS = {
              "random graphs and comparing marked sets inside Coq; the property itself is also evaluated directly on the real code.",
         note=TRUST + "SQLite UPDATE..FROM semantics exercised, not modelled; classifier returns exact stored names.",
         ref="DESIGN.md section 4 C17"),
+    "C10": dict(
+        technique="Coq proof (store refines the history of adds; spelling lemmas) + op-sequence correspondence",
+        text="Theorems c10_lookup_is_latest_add (for every history of add_page calls a lookup returns the most recent add of the "
+             "normalised key, else of the first-letter-upper-cased key), c10_read_your_write, c10_other_pages_untouched and "
+             "c10_spellings (prefix given/omitted/aliased/other case and underscores normalise to the same candidates), all "
+             "unbounded. Model tied to core.py by random and short operation sequences (add/overwrite/redirect/get/exists/body/"
+             "resolve/commit/reopen) whose every result is compared with the model inside Coq and with an independent oracle.",
+        note=TRUST + "SQLite upsert/UNION ALL..LIMIT 1 order/commit visibility exercised, not modelled; ASCII case mapping only; "
+             "namespace table regenerated from data/en/namespaces.json per run.",
+        ref="DESIGN.md section 4 C10"),
+    "C14": dict(
+        technique="Coq proof (three argument views equal by induction over the argument list) + three-view correspondence",
+        text="Theorem c14_views_agree: for every list of well-formed plain-text arguments the models of template_parameters, the "
+             "expander's argument map and make_frame/frame_args_index yield the same association list (int keys for positional "
+             "and positive numeric names, named values trimmed, positional verbatim). Models tied to the three real code paths "
+             "(parse, expand with template_fn, #invoke of an echo module) on exhaustive short and random argument lists.",
+        note=TRUST + "regex engine, lupa and the Lua VM exercised not modelled; mw.ustring stubbed; plain-text arguments only.",
+        ref="DESIGN.md section 4 C14"),
 }
 
 NOT_YET = "check not built yet in this round (planned, see DESIGN.md section 8)"
